@@ -276,6 +276,9 @@ func (dec *ttlvReader) LongInteger(tag int) (int64, error) {
 }
 
 func (dec *ttlvReader) BigInteger(tag int) (*big.Int, error) {
+	if err := dec.assertType(TypeBigInteger, tag); err != nil {
+		return nil, err
+	}
 	v := dec.value()
 	return bytesToBigInt(v), dec.Next()
 }
